@@ -24,6 +24,8 @@ type Obligation struct {
 	Cover  bool // satisfiability check: expected sat
 	Reach  bool // reachability guard: anything but unsat is accepted
 	RawSMT string // complete hand-written query (expected unsat)
+	rep    *replayCtx // set when the function is within the scope of counterexample replay
+	Clause *Clause    // the postcondition this obligation checks (replay evaluates it on the real result)
 	Static string // non-empty: decided without a solver: "ok" or failure reason
 	Pos    string
 	// results
@@ -50,6 +52,7 @@ type World struct {
 	tpkgs    map[string]*types.Package
 	callers  map[*ssa.Function]bool
 	autoTagCache map[string][]string
+	mcfg     ModuleCfg
 }
 
 type Options struct {
@@ -71,6 +74,7 @@ type Engine struct {
 	top      *ssa.Function
 	topKey   string
 	nameCnt  map[string]int
+	rep      *replayCtx
 	outside  []string
 	usedExtern map[string]bool
 	usedDefault map[string]bool
@@ -183,7 +187,7 @@ func (e *Engine) addObl(kind, name string, tags []string, st *State, goal string
 	if fl := e.envGuardFor(tags); fl != "" && goal != "true" {
 		goal = "(=> " + fl + " " + goal + ")"
 	}
-	o := &Obligation{Name: full, Kind: kind, Tags: tags, Fn: e.topKey, c: e.c, PC: st.pc, Goal: goal}
+	o := &Obligation{Name: full, Kind: kind, Tags: tags, Fn: e.topKey, c: e.c, PC: st.pc, Goal: goal, rep: e.rep}
 	if pos.IsValid() {
 		p := e.w.fset.Position(pos)
 		o.Pos = fmt.Sprintf("%s:%d", p.Filename, p.Line)
